@@ -274,6 +274,7 @@ class KCache:
         self.installed = False
         self._orphans = set()
         self._alive = set()
+        self.plant = False
 
     def c(self, k, n=1):
         with self.lock:
@@ -345,6 +346,23 @@ class KCache:
         gu.find_first_common_next_vertex_in_edges__clear_cache = clear
         gm.find_first_common_next_vertex_in_edges = find
         gm.find_first_common_next_vertex_in_edges__clear_cache = clear
+
+        # Fault injection at a hook: what a graph can inherit through a recycled id() - the memo dict of a dead graph whose join
+        # searches had failed (entries with value None; entries with edge lists keep their graph alive and cannot be inherited).
+        # Waiting for the allocator to recycle an id *and* for the keys to coincide is hopeless; planting the dict right after the
+        # graphs of a decompilation are created produces the same state deterministically. It must not change any result.
+        orig_init = gm.SsbGraphMinimizer.__init__
+
+        def init(self_, *a, **kw):
+            orig_init(self_, *a, **kw)
+            if mon.plant:
+                with gu.cache_lock:
+                    for g in self_._graphs:
+                        n = min(len(g.es), 40)
+                        cache[id(g)] = {f"{i},{j}": None for i in range(n) for j in range(i + 1, n)}
+                        mon.c("stale-memo-dicts-planted")
+
+        gm.SsbGraphMinimizer.__init__ = init
 
     def drain(self):
         ev, self.events = self.events, []
